@@ -168,7 +168,7 @@ Qed.
 (* worker state vs monitor state *)
 Definition SR (sv : svc) (w : wmon) : Prop :=
   w_open w = results sv /\
-  w_infl w = match inflight sv with Some po => Some (p_res po) | None => None end /\
+  w_infl w = match inflight sv with Some po => Some (p_res po, p_sent po) | None => None end /\
   (results sv = [] -> size sv = 0%Z) /\
   (strict = true -> cols sv = expected_block (kd sv) (results sv) /\
                     forall po, inflight sv = Some po -> p_cols po = expected_block (kd sv) (p_res po)) /\
@@ -223,7 +223,7 @@ Proof.
   destruct (apply_sevs s (kd sv) (store g) vs) as [st' es0] eqn:Hap.
   inversion Hact; subst g' es; clear Hact.
   destruct (Forall2_nth_error_l _ _ _ _ _ G Hs) as (w & Hw & Hr).
-  destruct a as [p r sz| |ok| |ok| |]; cbn in Hstep.
+  destruct a as [p r sz| |ok| | |ok| |]; cbn in Hstep.
   - (* SRequest *)
     pose proof (Hside p r sz sv eq_refl eq_refl) as Hq. pose proof (req_ok_strict _ _ Hq) as Hok.
     destruct (running sv) eqn:Hrun; cbn in Hstep.
@@ -289,21 +289,34 @@ Proof.
       rewrite Hinf in R2.
       assert (Hne : results sv <> []).
       { intros X. apply R3 in X. rewrite X in Hsz. discriminate. }
-      assert (Hsend : send_ok md (kd sv) (results sv) (cols sv) = true).
-      { unfold send_ok. destruct md eqn:Emd; [reflexivity| |].
-        - destruct (R4 eq_refl) as [X _]. rewrite <- X. apply block_eqb_refl.
-        - destruct (R4 eq_refl) as [X _]. destruct (R5 eq_refl) as [Y _].
-          rewrite <- expected_block_table by assumption. rewrite <- X. apply block_eqb_refl. }
       cbn [app run_mon smon_step]. rewrite Hw, R2, R1.
-      destruct (results sv) as [|x xs] eqn:Eres; [contradiction|]. rewrite Hsend.
+      destruct (results sv) as [|x xs] eqn:Eres; [contradiction|].
       eexists. split; [reflexivity|]. unfold GS; cbn. apply Forall2_upd; [assumption|].
-      unfold SR; cbn [cols kd results inflight size w_open w_infl p_cols p_res]. repeat split; auto.
+      unfold SR; cbn [cols kd results inflight size w_open w_infl p_cols p_res p_sent]. repeat split; auto.
       * intros po Hpo. inversion Hpo; subst po. cbn. apply R4; assumption.
       * intros po Hpo. inversion Hpo; subst po. cbn. apply R5; assumption.
+  - (* SSend *)
+    destruct (inflight sv) as [po|] eqn:Hinf; [|discriminate].
+    destruct (p_sent po) eqn:Hsent; [discriminate|].
+    inversion Hstep; subst sv' vs; clear Hstep. cbn in Hap. inversion Hap; subst st' es0; clear Hap.
+    destruct Hr as (R1 & R2 & R3 & R4 & R5). rewrite Hinf, Hsent in R2.
+    assert (Hsend : send_ok md (kd sv) (p_res po) (p_cols po) = true).
+    { unfold send_ok. destruct md eqn:Emd; [reflexivity| |].
+      - destruct (R4 eq_refl) as [_ X]. rewrite (X _ Hinf). apply block_eqb_refl.
+      - destruct (R4 eq_refl) as [_ X]. destruct (R5 eq_refl) as [_ Y].
+        rewrite <- expected_block_table by (apply Y; assumption). rewrite (X _ Hinf). apply block_eqb_refl. }
+    cbn [app run_mon smon_step]. rewrite Hw, R2, Hsend.
+    eexists. split; [reflexivity|]. unfold GS; cbn. apply Forall2_upd; [assumption|].
+    unfold SR; cbn [cols kd results inflight size w_open w_infl p_cols p_res p_sent]. repeat split; auto.
+    * apply R4; assumption.
+    * intros po' Hpo. inversion Hpo; subst po'. cbn. destruct (R4 H) as [_ X]. exact (X _ Hinf).
+    * apply R5; assumption.
+    * intros po' Hpo. inversion Hpo; subst po'. cbn. destruct (R5 H) as [_ X]. exact (X _ Hinf).
   - (* SDoReturn *)
     destruct (inflight sv) as [po|] eqn:Hinf; [|discriminate].
+    destruct (p_sent po) eqn:Hsent; [|discriminate]. cbn [negb] in Hstep.
     inversion Hstep; subst sv' vs; clear Hstep.
-    destruct Hr as (R1 & R2 & R3 & R4 & R5). rewrite Hinf in R2.
+    destruct Hr as (R1 & R2 & R3 & R4 & R5). rewrite Hinf, Hsent in R2.
     cbn [apply_sevs] in Hap.
     set (W := upd s {| w_open := w_open w; w_infl := None |} (s_w m)).
     destruct (smon_dones s (kd sv) ok W (p_res po) (store g) (p_res po) (Sub_refl _)) as (st1 & es1 & ws' & E1 & Run1).
@@ -433,10 +446,10 @@ Definition demo_trace : list gact :=
   [ GNewHandler [IChunk [(1%nat, KSeries, table_of 4 [5%N], 20%Z); (0%nat, KSamples, table_of 5 [1%N; 2%N], 30%Z)]];
     GItem 0; GSubReq 0 0 1; GSubReq 0 1 0;
     GEnvReq 0 KSamples 9%N (table_of 5 [3%N]) 15%Z;                 (* pushes the samples worker over maxQueueSize *)
-    GSvc 0 (SDial true); GSvc 0 SSwap; GSvc 0 (SDoReturn false);    (* the INSERT fails *)
+    GSvc 0 (SDial true); GSvc 0 SSwap; GSvc 0 SSend; GSvc 0 (SDoReturn false);    (* the INSERT fails *)
     GSubGet 0 1; GSubReq 0 1 0;                                      (* second attempt of the samples sub-push *)
-    GSvc 1 SPlan; GSvc 1 (SDial true); GSvc 1 SSwap; GSvc 1 (SDoReturn true); GSubGet 0 0;
-    GSvc 0 SPlan; GSvc 0 (SDial true); GSvc 0 SSwap; GSvc 0 (SDoReturn true); GSubGet 0 1;
+    GSvc 1 SPlan; GSvc 1 (SDial true); GSvc 1 SSwap; GSvc 1 SSend; GSvc 1 (SDoReturn true); GSubGet 0 0;
+    GSvc 0 SPlan; GSvc 0 (SDial true); GSvc 0 SSwap; GSvc 0 SSend; GSvc 0 (SDoReturn true); GSubGet 0 1;
     GAnswer 0 ].
 Example demo_trace_runs :
   forallb act_wf demo_trace = true /\
